@@ -216,6 +216,11 @@ func initHarnessExternals() {
 		"verifChoice": func(fr *frame, a []value) value {
 			return fr.i.choiceK('h', int(asInt64(a[0])))
 		},
+		// a choice only the symbolic build makes (fault injection in a stub that has
+		// no native counterpart): recorded as 's', not consumed by the native replay
+		"verifSymChoice": func(fr *frame, a []value) value {
+			return fr.i.choiceK('s', int(asInt64(a[0])))
+		},
 		"verifPoolMode": func(fr *frame, a []value) value {
 			fr.i.poolMode = int(asInt64(a[0]))
 			return nil
